@@ -252,7 +252,7 @@ def fxp_like(x, val=None):
         New Fxp object like `x`.
 
     '''
-    y = x.copy()
+    y = x.deepcopy()    # (a new object: it does not share configuration, status nor callbacks with `x`)
     return y(val)
 
 def fxp_sum(x, sizes='best_sizes', axis=None, dtype=None, out=None, vdtype=None):
